@@ -11,7 +11,7 @@ demo_rel = f"crates/lexgen/tests/{name}.rs"
 def run(cmd, **kw):
     return subprocess.run(cmd, shell=True, cwd=wt, capture_output=True, text=True, **kw)
 def tests_ok():
-    r = run("cargo test --workspace --no-fail-fast --offline 2>&1 | grep -E '^test result' | awk '{p+=$4; f+=$6} END {print p, f}'")
+    r = run("cargo test --workspace --no-fail-fast --offline 2>&1 | grep -a -E '^test result' | awk '{p+=$4; f+=$6} END {print p, f}'")
     return r.stdout.strip()
 run("git checkout -- .")
 for f in os.listdir(f"{wt}/crates/lexgen/tests"):
@@ -19,7 +19,7 @@ for f in os.listdir(f"{wt}/crates/lexgen/tests"):
         os.remove(f"{wt}/crates/lexgen/tests/{f}")
 shutil.copy(f"{src}/demo.rs", f"{wt}/{demo_rel}")
 demo_cmd = f"cargo test -p lexgen --test {name} --offline"
-r0 = run(demo_cmd + " 2>&1 | grep -E '^test result'")
+r0 = run(demo_cmd + " 2>&1 | grep -a -E '^test result'")
 without = r0.stdout.strip()
 os.remove(f"{wt}/{demo_rel}")
 a = run(f"git apply {src}/patch.diff")
@@ -27,7 +27,7 @@ if a.returncode != 0:
     print("PATCH DOES NOT APPLY", a.stderr); sys.exit(1)
 suite = tests_ok()
 shutil.copy(f"{src}/demo.rs", f"{wt}/{demo_rel}")
-r1 = run(demo_cmd + " 2>&1 | grep -E '^test result'")
+r1 = run(demo_cmd + " 2>&1 | grep -a -E '^test result'")
 with_ = r1.stdout.strip()
 os.remove(f"{wt}/{demo_rel}")
 run("git checkout -- .")
